@@ -20,7 +20,7 @@ import random
 from harness import common, tlc
 
 NAMES = ["json", "msgpack", "cbor", "ubjson"]
-KINDS = ["frametype", "garbage", "truncated", "notwamp", "outofphase", "sessionraises"]
+KINDS = ["frametype", "garbage", "truncated", "notwamp", "outofphase", "sessionraises", "sessionpayload", "sessionser", "baduri"]
 
 
 def hs_cases(thorough, rng):
@@ -81,6 +81,8 @@ def half_scenarios(thorough, rng):
             ops = [["recv", n, "hdr"] for n in recvs] + [["recv", 40, "hdr"], ["send", 40]]
             out.append(dict(type="half", role=role, ser=rng.choice([1, 2, 3]), peer_exp=rng.randrange(16), own_exp=None, own_size=size, ops=ops,
                             seed=rng.randrange(10 ** 6)))
+        for serid in (1, 2, 3):
+            out.append(dict(type="half", role=role, ser=serid, peer_exp=rng.randrange(16), own_exp=None, openfails=True, ops=[], seed=0))
         for kind in KINDS + ["ping0"]:
             for rep in range(3 if thorough else 2):
                 pre = [rng.choice([["send", rng.randrange(30, 400)], ["recv", rng.randrange(30, 400), "hdr"]]) for _ in range(rng.randrange(0, 4))]
